@@ -236,11 +236,30 @@ func (p *perco) keyFacts(ki int, tieCFs ...kv.ColumnFamily) map[string]string {
 		return sig
 	}
 	for _, cf := range tieCFs {
-		if ingestTie(p.w, cf, []byte(k.name)) {
+		if ingestTie(p.w, cf, []byte(k.name)) || p.tieSeen[fmt.Sprintf("%d/%d", ki, cf)] {
 			sig["ingest_tie"] = "yes"
 		}
 	}
 	return sig
+}
+
+// noteTies records, per key and column, that equal-version copies sat in two
+// tables one of which was in an ingest buffer: the merge that ends such a tie
+// may keep the older copy, so the fact has to outlive the tie (the prewrite of
+// a put writes a tombstone and the value at the same version; a memtable
+// rotation between the two is enough to start one).
+func (p *perco) noteTies() {
+	if p.w.DB == nil {
+		return
+	}
+	for ki, k := range p.m {
+		for _, cf := range []kv.ColumnFamily{kv.CFDefault, kv.CFWrite, kv.CFLock} {
+			id := fmt.Sprintf("%d/%d", ki, cf)
+			if !p.tieSeen[id] && ingestTie(p.w, cf, []byte(k.name)) {
+				p.tieSeen[id] = true
+			}
+		}
+	}
 }
 
 // noteOverlap records (sticky for the rest of the run) that the sorted part of
